@@ -408,6 +408,20 @@ def clause2_mutation(ctx, P, T):
            "after a successful displacement that slot holds a stale copy of the moved key, no lookup reaches it and every later probe "
            "takes it for occupied", witness=stale.witness() if stale else None)
     if T.get is not None:
+        # 'not found' is answered only after the scan over the home bucket's hop word has run out: the slot a key hashes to may be
+        # empty while the bucket's bitmap still points to entries that live in neighbouring slots
+        earlyg = None
+        nnf = 0
+        for v in Q.path_views(ctx, P, T.get):
+            if v.ret_const() == SUCC:
+                continue
+            nnf += 1
+            if not v.has_atom(lambda a, p: a[0] == "cmp" and a[3] == ("const", 0) and a[2][0] == "phi" and Q._poleq(a, p)):
+                earlyg = v
+        ctx.ob("C17.2 R-ORDER", T.get, "not-found-only-after-the-scan", earlyg is None and nnf > 0,
+               "lookup answers 'not found' on a path that has not finished the scan over the home bucket's hop word (e.g. because the "
+               "home slot itself is empty): entries of that bucket stored in neighbouring slots become invisible - add accepts a path "
+               "that exists, change and remove of the owner find nothing", witness=earlyg.witness() if earlyg else None)
         stores = []
         for i in T.get.all_insts():
             if i.op == "store":
